@@ -55,6 +55,32 @@ theorem staleOfD_length (s : Gen.doubleHashParser)
   rw [List.length_take, List.length_drop]
   omega
 
+/-! the clamp `n = min(len(s.Data) - s.W, s.BlockSize)` in its spellings (after `gt_iff_lt`, `ge_iff_le`, `Int.not_lt`,
+    `Int.not_le`, `gen_min`, `Int.min_def`): every one is `blockND s` -/
+
+theorem blockND_lt (s : Gen.doubleHashParser) :
+    (if s.DHPConfig.BlockSize < (Int.ofNat s.doubleHashDictionary.ParserBuffer.Data.len) - s.doubleHashDictionary.ParserBuffer.W
+      then s.DHPConfig.BlockSize
+      else (Int.ofNat s.doubleHashDictionary.ParserBuffer.Data.len) - s.doubleHashDictionary.ParserBuffer.W) = blockND s := rfl
+
+theorem blockND_le (s : Gen.doubleHashParser) :
+    (if s.DHPConfig.BlockSize ≤ (Int.ofNat s.doubleHashDictionary.ParserBuffer.Data.len) - s.doubleHashDictionary.ParserBuffer.W
+      then s.DHPConfig.BlockSize
+      else (Int.ofNat s.doubleHashDictionary.ParserBuffer.Data.len) - s.doubleHashDictionary.ParserBuffer.W) = blockND s := by
+  unfold blockND; split <;> split <;> omega
+
+theorem blockND_lt' (s : Gen.doubleHashParser) :
+    (if (Int.ofNat s.doubleHashDictionary.ParserBuffer.Data.len) - s.doubleHashDictionary.ParserBuffer.W < s.DHPConfig.BlockSize
+      then (Int.ofNat s.doubleHashDictionary.ParserBuffer.Data.len) - s.doubleHashDictionary.ParserBuffer.W
+      else s.DHPConfig.BlockSize) = blockND s := by
+  unfold blockND; split <;> split <;> omega
+
+theorem blockND_le' (s : Gen.doubleHashParser) :
+    (if (Int.ofNat s.doubleHashDictionary.ParserBuffer.Data.len) - s.doubleHashDictionary.ParserBuffer.W ≤ s.DHPConfig.BlockSize
+      then (Int.ofNat s.doubleHashDictionary.ParserBuffer.Data.len) - s.doubleHashDictionary.ParserBuffer.W
+      else s.DHPConfig.BlockSize) = blockND s := by
+  unfold blockND; split <;> split <;> omega
+
 /-- the straight-line prefix of `Parse`: nothing to parse ⇒ `(0, ErrEmptyBuffer)`, the block is emptied, the parser
     is unchanged; no panic, for every `grow` and `fuel` -/
 theorem gen_dhp_parse_empty (grow : Nat → Nat → Nat) (fuel : Nat) (s : Gen.doubleHashParser) (blk : Gen.Block')
@@ -64,23 +90,11 @@ theorem gen_dhp_parse_empty (grow : Nat → Nat → Nat) (fuel : Nat) (s : Gen.d
   have hs : Slice.slice blk.Literals 0 (0 : Int) = Res.ok { arr := blk.Literals.arr, len := 0 } := by
     unfold Slice.slice
     simp [Slice.cap]
-  unfold blockND at h
   unfold doubleHashParser_Parse
-  -- shape-independent in the spelling of the clamp (`BlockSize < n`, `n > BlockSize`, `BlockSize <= n`, `n >= BlockSize`)
-  by_cases hgt : s.DHPConfig.BlockSize < (Int.ofNat s.doubleHashDictionary.ParserBuffer.Data.len) - s.doubleHashDictionary.ParserBuffer.W
-  · have hB : s.DHPConfig.BlockSize = 0 := by simpa only [hgt, if_true] using h
-    have hge : s.DHPConfig.BlockSize ≤ (Int.ofNat s.doubleHashDictionary.ParserBuffer.Data.len) - s.doubleHashDictionary.ParserBuffer.W := by
-      omega
-    simp only [hgt, hge, gt_iff_lt, ge_iff_le, if_true, if_false, hs, bind_ok, resetBlk]
-    simp only [hB, if_true]
-  · have hL : (Int.ofNat s.doubleHashDictionary.ParserBuffer.Data.len) - s.doubleHashDictionary.ParserBuffer.W = 0 := by
-      simpa only [hgt, if_false] using h
-    by_cases hge : s.DHPConfig.BlockSize ≤ (Int.ofNat s.doubleHashDictionary.ParserBuffer.Data.len) - s.doubleHashDictionary.ParserBuffer.W
-    · have hB : s.DHPConfig.BlockSize = 0 := by omega
-      simp only [hgt, hge, gt_iff_lt, ge_iff_le, if_true, if_false, hs, bind_ok, resetBlk]
-      simp only [hB, hL, if_true]
-    · simp only [hgt, hge, gt_iff_lt, ge_iff_le, if_true, if_false, hs, bind_ok, resetBlk]
-      simp only [hL, if_true]
+  -- shape-independent in the spelling of the clamp: every spelling of `n` is rewritten to `blockND s`, then to 0
+  simp only [gen_min, Int.min_def, gt_iff_lt, ge_iff_le, Int.not_lt, Int.not_le,
+    blockND_lt, blockND_le, blockND_lt', blockND_le']
+  simp only [h, hs, bind_ok, if_true, if_false, resetBlk]
 
 /-! ## the whole `Parse` -/
 
@@ -146,23 +160,13 @@ theorem gen_dhp_parse (grow : Nat → Nat → Nat) (fuel : Nat) (s : Gen.doubleH
     show Min.min (s.doubleHashDictionary.ParserBuffer.Data.data.length - _) s.doubleHashDictionary.ParserBuffer.BufConfig.BlockSize.toNat = _
     rw [hdl, cbs]
     rfl
-  -- the clamp in its spellings
-  have hnG : (if s.DHPConfig.BlockSize < (Int.ofNat s.doubleHashDictionary.ParserBuffer.Data.len) - s.doubleHashDictionary.ParserBuffer.W
-      then s.DHPConfig.BlockSize
-      else (Int.ofNat s.doubleHashDictionary.ParserBuffer.Data.len) - s.doubleHashDictionary.ParserBuffer.W) =
-      (((ofDHPs s).blockN : Nat) : Int) := by
-    rw [hbN]
-    show (if _ < (s.doubleHashDictionary.ParserBuffer.Data.len : Int) - _ then _ else (s.doubleHashDictionary.ParserBuffer.Data.len : Int) - _) = _
-    split <;> omega
-  have hnG' : (if s.DHPConfig.BlockSize ≤ (Int.ofNat s.doubleHashDictionary.ParserBuffer.Data.len) - s.doubleHashDictionary.ParserBuffer.W
-      then s.DHPConfig.BlockSize
-      else (Int.ofNat s.doubleHashDictionary.ParserBuffer.Data.len) - s.doubleHashDictionary.ParserBuffer.W) =
-      (((ofDHPs s).blockN : Nat) : Int) := by
-    rw [hbN]
-    show (if _ ≤ (s.doubleHashDictionary.ParserBuffer.Data.len : Int) - _ then _ else (s.doubleHashDictionary.ParserBuffer.Data.len : Int) - _) = _
+  -- the clamp: `blockND s` (every spelling of the Go text is rewritten to it, see `blockND_lt` …) is the model's `blockN`
+  have hnG : blockND s = (((ofDHPs s).blockN : Nat) : Int) := by
+    rw [hbN]; unfold blockND
+    simp only [Int.ofNat_eq_natCast]
     split <;> omega
   by_cases hn : (ofDHPs s).blockN = 0
-  · have hg : blockND s = 0 := by unfold blockND; rw [hnG, hn]; rfl
+  · have hg : blockND s = 0 := by rw [hnG, hn]; rfl
     rw [gen_dhp_parse_empty grow fuel s blk flags hg]
     unfold ProbeW.parseW
     simp only [hn, if_true]
@@ -193,7 +197,8 @@ theorem gen_dhp_parse (grow : Nat → Nat → Nat) (fuel : Nat) (s : Gen.doubleH
   generalize hG : doubleHashParser_Parse grow fuel s blk flags = G
   unfold doubleHashParser_Parse at hG
   simp only [if_false] at hG
-  simp only [hnG, hnG', gt_iff_lt, ge_iff_le] at hG
+  simp only [gen_min, Int.min_def, gt_iff_lt, ge_iff_le, Int.not_lt, Int.not_le,
+    blockND_lt, blockND_le, blockND_lt', blockND_le', hnG] at hG
   rw [hs0, bind_ok, if_neg (by omega)] at hG
   cases hp1 : ProbeW.processSegment2W (ofHash s.doubleHashDictionary.h1) (ofHash s.doubleHashDictionary.h2)
         s.doubleHashDictionary.ParserBuffer.Data.data
